@@ -266,8 +266,8 @@ func init() {
 			bound := 2
 			tinyMax := 11
 			if !c.Quick() {
-				bound = 3
-				tinyMax = 14
+				bound = 4
+				tinyMax = 18
 			}
 			report := func(cs c09Case, sig, detail string) {
 				if strings.HasPrefix(sig, "harness:") {
@@ -290,6 +290,9 @@ func init() {
 					b := bound
 					if len(data) > 70 && b > 2 {
 						b = 2
+						if !c.Quick() && len(data) <= 200 {
+							b = 3
+						}
 					}
 					if len(data) <= 24 {
 						b = bound + 1 // short inputs: one more deviation
